@@ -85,6 +85,10 @@ def execute(mod, seed=None, tape=None, labels=False, run_cap=60, idx=None):
     signal.alarm(run_cap)
     try:
         res = mod.run_one(ch)
+    except (KeyboardInterrupt, SystemExit, GeneratorExit) as e:
+        # raised by code under simulation (e.g. a scripted callback), not by a user: it must
+        # never end the checker - least of all with exit status 0
+        raise RuntimeError(f"{type(e).__name__} escaped from a simulated run") from e
     finally:
         signal.alarm(0)
     return res, ch
